@@ -39,6 +39,8 @@ type Contract struct {
 	Requires  []*Clause
 	Ensures   []*Clause
 	Panics    *Clause
+	PanicsMay bool // may_panic_when: panic only if the condition; no converse
+	FnFacts   []*Clause
 	Modifies  []*Clause
 	Lets      []*Clause
 	Fresh     []string
@@ -54,6 +56,8 @@ type Contract struct {
 	Pkg       string
 	Preds     map[string]*Pred
 	Raw       []string
+	ReplayArgs    map[string]string
+	ReplayImports []string
 	RecvNonNil bool
 	NoAutoNonNil bool
 }
@@ -71,7 +75,7 @@ func readLines(path string) []string {
 	return strings.Split(string(b), "\n")
 }
 
-var clauseKinds = map[string]bool{"requires": true, "ensures": true, "invariant": true, "panics_when": true, "modifies": true, "let": true, "fresh": true}
+var clauseKinds = map[string]bool{"requires": true, "ensures": true, "invariant": true, "panics_when": true, "may_panic_when": true, "modifies": true, "let": true, "fresh": true, "fnfact": true}
 
 // parseContracts reads one file. pkgPath prefixes relative function names.
 func parseContracts(path, pkgPath string, external bool) ([]*Contract, map[string]*Pred, error) {
@@ -124,6 +128,11 @@ func parseContracts(path, pkgPath string, external bool) ([]*Contract, map[strin
 			cur.Ensures = append(cur.Ensures, cl)
 		case "panics_when":
 			cur.Panics = cl
+		case "may_panic_when":
+			cur.Panics = cl
+			cur.PanicsMay = true
+		case "fnfact":
+			cur.FnFacts = append(cur.FnFacts, cl)
 		case "modifies":
 			cur.Modifies = append(cur.Modifies, cl)
 		case "let":
@@ -241,6 +250,17 @@ func parseContracts(path, pkgPath string, external bool) ([]*Contract, map[strin
 				cur.RecvNonNil = false
 			case "note":
 				cur.Notes = append(cur.Notes, rest(k+1))
+			case "replay_arg":
+				// replay_arg name = Go expression
+				txt := rest(k + 1)
+				if j := strings.Index(txt, "="); j > 0 {
+					if cur.ReplayArgs == nil {
+						cur.ReplayArgs = map[string]string{}
+					}
+					cur.ReplayArgs[strings.TrimSpace(txt[:j])] = strings.TrimSpace(txt[j+1:])
+				}
+			case "replay_import":
+				cur.ReplayImports = append(cur.ReplayImports, f[k+1:]...)
 			case "loop":
 				// loop N invariant E
 				if len(f) < k+3 {
